@@ -224,13 +224,17 @@ BIT_STRING__compactify(const BIT_STRING_t *st, BIT_STRING_t *tmp) {
         assert(st->bits_unused == 0);
         return st;
     } else {
-        for(b = &st->buf[st->size - 1]; b > st->buf && *b == 0; b--) {
-            ;
+        /* The unused bits of the last octet carry no data, whatever they hold */
+        uint8_t last = st->buf[st->size - 1] & (0xff << (st->bits_unused & 7));
+        b = &st->buf[st->size - 1];
+        while(last == 0 && b > st->buf) {
+            b--;
+            last = *b;
         }
         /* b points to the last byte which may contain data */
-        if(*b) {
+        if(last) {
             int unused = 7;
-            uint8_t v = *b;
+            uint8_t v = last;
             v &= -(int8_t)v;
             if(v & 0x0F) unused -= 4;
             if(v & 0x33) unused -= 2;
